@@ -546,6 +546,11 @@ func (c *Ctx) codecArms(f *ssa.Function, innermost string) []codecArm {
 		}
 		out = append(out, arm)
 	}
+	if len(out) != 4 {
+		if alt := c.codecArmsUnder(f, innermost); len(alt) == 4 {
+			out = alt
+		}
+	}
 	sort.Slice(out, func(i, j int) bool { return out[i].binary+out[i].compress < out[j].binary+out[j].compress })
 	return out
 }
@@ -918,4 +923,79 @@ func c04FreshStaging(c *Ctx) {
 	if n < 2 {
 		c.undecided("staging-buffer-fresh/sites", "fewer placements of the staging buffer than expected")
 	}
+}
+
+// codecArmsUnder: the same four (binary x compress) chains when the construction is not written as four separate
+// arms but as one chain with two ifs (`w := frame; if binary { w = escape(w) } else { w = base64(w) }; if compress
+// { w = zstd(w) }`). For each combination the function is walked under the assumption, and the chain is what the
+// innermost object is wrapped in on the blocks that can run.
+func (c *Ctx) codecArmsUnder(f *ssa.Function, innermost string) []codecArm {
+	var out []codecArm
+	for _, bin := range []bool{true, false} {
+		for _, cmp := range []bool{true, false} {
+			as := []assumption{{pred: isFieldLoad("Binary"), val: bin}, {pred: isVar("compress"), val: cmp}}
+			reach := blocksUnder(f, as)
+			no := contradicts(as)
+			var start *ssa.Call
+			n := 0
+			for _, ci := range callsIn(f, idIs("trzsz."+innermost)) {
+				if call, ok := ci.(*ssa.Call); ok && reach[call.Block()] {
+					start = call
+					n++
+				}
+			}
+			if n != 1 {
+				return nil
+			}
+			chain := []string{innermost}
+			cur := map[ssa.Value]bool{start: true}
+			if e := extractOf(start, 0); e != nil && start.Call.Signature().Results().Len() > 1 {
+				cur = map[ssa.Value]bool{e: true}
+			}
+			for steps := 0; steps < 6; steps++ {
+				// everything the current object flows into without being wrapped
+				for grew := true; grew; {
+					grew = false
+					for v := range cur {
+						for _, r := range referrersOf(v) {
+							switch x := r.(type) {
+							case *ssa.MakeInterface, *ssa.ChangeInterface, *ssa.ChangeType:
+								if !cur[x.(ssa.Value)] {
+									cur[x.(ssa.Value)] = true
+									grew = true
+								}
+							case *ssa.Phi:
+								for i, e := range x.Edges {
+									pred := x.Block().Preds[i]
+									if e == v && reach[pred] && !no(pred, x.Block()) && !cur[x] {
+										cur[x] = true
+										grew = true
+									}
+								}
+							}
+						}
+					}
+				}
+				var next *ssa.Call
+				for v := range cur {
+					for _, r := range referrersOf(v) {
+						if call, ok := r.(*ssa.Call); ok && reach[call.Block()] && strings.HasPrefix(calleeID(&call.Call), "trzsz.new") {
+							next = call
+						}
+					}
+				}
+				if next == nil {
+					break
+				}
+				chain = append([]string{strings.TrimPrefix(calleeID(&next.Call), "trzsz.")}, chain...)
+				cur = map[ssa.Value]bool{next: true}
+				if e := extractOf(next, 0); e != nil && next.Call.Signature().Results().Len() > 1 {
+					cur = map[ssa.Value]bool{e: true}
+				}
+			}
+			tf := map[bool]string{true: "T", false: "F"}
+			out = append(out, codecArm{binary: tf[bin], compress: tf[cmp], chain: chain, pos: c.ipos(start)})
+		}
+	}
+	return out
 }
